@@ -36,14 +36,14 @@ def check(ctx):
 def s1_ownership(ctx):
     M = ctx.M
     ws = writers_of_attr(M, 'cash')
-    ctx.floor('C01.S1', 'writers of Portfolio.cash', len(ws), 4)
+    ctx.floor('C01.S1', 'writers of Portfolio.cash', len(ws), 1)
     for w in ws:
         ok = w.fn.cls is not None and w.fn.cls.name == 'Portfolio'
         ctx.require(ok, 'C01.S1', 'writer of .cash in %s' % w.fn.qn, w.where,
                     'cash balance written outside class Portfolio ("nothing else ever changes a cash balance")',
                     key='C01.S1|cash|%s' % w.fn.qn)
     ws = writers_of_attr(M, 'cash_balances', getters=GETTERS_CASH_BALANCES)
-    ctx.floor('C01.S1', 'writers of SimulatedBroker.cash_balances', len(ws), 5)
+    ctx.floor('C01.S1', 'writers of SimulatedBroker.cash_balances', len(ws), 1)
     for w in ws:
         ok = w.fn.cls is not None and w.fn.cls.name == 'SimulatedBroker'
         ctx.require(ok, 'C01.S1', 'writer of .cash_balances in %s' % w.fn.qn, w.where,
